@@ -36,6 +36,17 @@ fn wrong_kinds() -> Vec<MV> {
         MV::Sym("sym".into()),
         MV::Nil,
         MV::Bytes(vec![1, 2]),
+        // payloads an error message might abbreviate or convert
+        MV::Str(format!("{}é{}", "a".repeat(63), "b".repeat(40))),
+        MV::Str(format!("{}\u{1F600}", "a".repeat(126))),
+        MV::Sym(format!("{}\u{4e2d}z", "s".repeat(62))),
+        MV::U(u64::MAX),
+        MV::I(i64::MIN),
+        MV::f(-2.5e300),
+        MV::f(f64::NAN),
+        MV::f(f64::INFINITY),
+        MV::Char(0x10FFFF),
+        MV::Bytes((0..=255u8).collect()),
     ]
 }
 
